@@ -26,6 +26,7 @@ import Fir.Proofs.IdealFilterLemmas
 import Fir.Proofs.GeomLemmas
 import Fir.Proofs.ReadsLemmas
 import Fir.Proofs.IeeeLemmas
+import Fir.Proofs.SimdU8x3Lemmas
 
 namespace Fir.C03
 open Fir Fir.Bounds Fir.Gen
@@ -207,5 +208,16 @@ theorem headroom_u16 (p : Nat) (hp : p < PRECISION16_BITS) (S : Int) (hS : S ≤
   generalize (2 : Int) ^ (p - 1) = Q at *
   norm_num at h1 ⊢
   omega
+
+/-! ### SIMD load footprints of one kernel, as a theorem (U8x3, SSE4.1, one row) -/
+
+/-- every 16-byte, 8-byte and single-pixel load of `horiz_convolution_one_row` (src/convolution/u8x3/sse4.rs, modelled in
+    `Fir.SimdU8x3.loads` with the kernel's own loop guards `x < src_width - 5` / `- 2`) lies inside the row of `w` pixels
+    whenever the coefficient window does - for every width, start and number of coefficients -/
+theorem u8x3_sse4_one_row_loads_in_row (w start : Nat) (ks : List Int) (hwin : start + ks.length ≤ w) :
+    ∀ e ∈ Fir.SimdU8x3.loads w start ks, 3 * e.1 + e.2 ≤ 3 * w :=
+  Fir.Proofs.u8x3_sse4_loads_in_row w start ks hwin
+
+example : Fir.SimdU8x3.loads 15 2 [1, 2, 3, 4, 5, 6, 7, 8, 9, 10, 11, 12, 13] = [(2, 16), (6, 16), (10, 8), (12, 8), (14, 3)] := by decide
 
 end Fir.C03
